@@ -50,3 +50,54 @@ Check C01_issued_accepted_iff_alive : forall cfg s iss e, Inv s -> Hist s iss ->
   (exists si d, resolve_entity cfg s e = ROk (Some (si, d))) <-> (exists d, ents s !! d = Some e).
 Check C01_stale_rejected : forall cfg s e x, Inv s -> key32 e -> eslot e < cap s ->
   slots s !! eslot e = Some x -> (snd e < s_ver x)%N -> resolve_entity cfg s e = ROk None.
+
+(* ---------------------------------------------------------------- whole histories *)
+From Gecs Require Import Query World Borrow Run WorldInv LoopFacts HistRun.
+
+(** One storage, every sequence of creations (with or without growth), create_within_capacity,
+    destructions with any key of either kind, and transitions that leave slots and dense handles
+    alone: a handle that has left the dense array never returns and is rejected by every later lookup. *)
+Theorem C01_stale_forever_storage : forall cfg s1 s2 s3 e, wrapping cfg = false -> sreach cfg s1 -> key32 e ->
+  e ∈ ents s1 -> esteps cfg s1 s2 -> e ∉ ents s2 -> esteps cfg s2 s3 ->
+  e ∉ ents s3 /\ resolve_entity cfg s3 e = ROk None.
+Proof. exact stale_forever. Qed.
+
+(** The run language: every operation moves every storage of every persisting world by such transitions. *)
+Theorem C01_every_operation_is_a_sequence_of_elementary_transitions : forall cfg d qs st o,
+  wf_decl d -> wf_op d o -> RInv d st -> hist_ok_step st o = true ->
+  match step cfg d qs st o with Some (st', _) => ltrans cfg (worlds st) (worlds st') | None => True end.
+Proof. exact step_trans. Qed.
+
+(** Whole histories of the run language (several worlds, clones, drops, forged and foreign keys,
+    queries, ecs_iter_destroy!, panics): stale forever. *)
+Theorem C01_stale_forever : forall cfg d qs ops1 ops2 ops3 st1 st2 st3 i a w1 w2 w3 s1 s2 s3 e,
+  hist_case cfg d qs (ops1 ++ ops2 ++ ops3) = true ->
+  run_to cfg d qs rs0 ops1 = Some st1 -> run_to cfg d qs st1 ops2 = Some st2 -> run_to cfg d qs st2 ops3 = Some st3 ->
+  worlds st1 !! i = Some (Some w1) -> worlds st2 !! i = Some (Some w2) -> worlds st3 !! i = Some (Some w3) ->
+  w1 !! a = Some s1 -> w2 !! a = Some s2 -> w3 !! a = Some s3 ->
+  key32 e -> e ∈ ents s1 -> e ∉ ents s2 ->
+  e ∉ ents s3 /\ resolve_entity cfg s3 e = ROk None.
+Proof. exact run_stale_forever. Qed.
+
+(** ... and accepted exactly while stored, designating itself. *)
+Theorem C01_accepted_iff_stored : forall cfg d qs ops1 ops2 st1 st2 i a w1 w2 s1 s2 e,
+  hist_case cfg d qs (ops1 ++ ops2) = true ->
+  run_to cfg d qs rs0 ops1 = Some st1 -> run_to cfg d qs st1 ops2 = Some st2 ->
+  worlds st1 !! i = Some (Some w1) -> worlds st2 !! i = Some (Some w2) -> w1 !! a = Some s1 -> w2 !! a = Some s2 ->
+  key32 e -> e ∈ ents s1 ->
+  ((exists si dd, resolve_entity cfg s2 e = ROk (Some (si, dd))) <-> e ∈ ents s2) /\
+  (forall si dd, resolve_entity cfg s2 e = ROk (Some (si, dd)) -> ents s2 !! dd = Some e).
+Proof. exact run_accepted_iff_stored. Qed.
+
+(** Non-vacuity: a history that creates two entities, destroys the first, and reuses its slot twice. *)
+Definition c01_decl : wdecl := WD [DA 0%N 0 [DC 0%N 0]; DA 3%N 1 [DC 0%N 0; DC 1%N 1]; DA 4%N 2 [DC 0%N 1; DC 1%N 2; DC 2%N 3]; DA 200%N 3 [DC 0%N 0; DC 1%N 1; DC 2%N 2; DC 3%N 4; DC 4%N 5; DC 5%N 6; DC 6%N 7; DC 7%N 8]] [3].
+Definition c01_ops1 : list op := [ONew [2; 2; 2; 2]; OCreate 0 1%N; OCreate 0 2%N].
+Definition c01_ops2 : list op := [ODestroy LWorld KEnt TAny (RIssued 0)].
+Definition c01_ops3 : list op := [OCreate 0 3%N; ODestroy (LArch 0) KEnt (TChecked 0) (RIssued 2); OCreate 0 4%N; OIterD 0 [DContinueDestroy]; OCreate 0 5%N].
+Definition c01_ents (ops : list op) : option (list handle) :=
+  st ← run_to (Config false true true) c01_decl [[QP [] false PEntAny true]] rs0 ops; w ← mjoin (worlds st !! 0); s ← w !! 0; Some (ents s).
+Example C01_history_instance :
+  hist_case (Config false true true) c01_decl [[QP [] false PEntAny true]] (c01_ops1 ++ c01_ops2 ++ c01_ops3) = true /\
+  c01_ents c01_ops1 = Some [(0, 1); (256, 1)]%N /\ c01_ents (c01_ops1 ++ c01_ops2) = Some [(256, 1)]%N /\
+  c01_ents (c01_ops1 ++ c01_ops2 ++ c01_ops3) = Some [(256, 1); (0, 4)]%N.
+Proof. vm_compute. repeat split; reflexivity. Qed.
